@@ -4,6 +4,7 @@
 extern crate iceoryx2_bb_loggers;
 
 mod exec;
+mod seqlock;
 mod spsc;
 mod uis;
 
@@ -12,6 +13,7 @@ fn main() {
     match args.positional(0).as_deref() {
         Some("spsc") => spsc::main(&args),
         Some("uis") => uis::main(&args),
+        Some("seqlock") => seqlock::main(&args),
         other => {
             eprintln!("unknown sub-command {other:?}");
             std::process::exit(2);
